@@ -354,7 +354,17 @@ impl Session<'_> {
                 Ok(None)
             }
             DoesNotExist => Ok(None),
-            Unchanged { state, .. } | Changed { state } => Ok(state.remove(key)),
+            Changed { state } => Ok(state.remove(key)),
+            Unchanged { state, .. } => {
+                let Some(value) = state.remove(key) else {
+                    return Ok(None);
+                };
+                // The state no longer matches what's in the store:
+                // it must be marked as changed, or `sync` won't persist the removal.
+                let state = std::mem::take(state);
+                self.server_state = new_cell_with(Some(ServerState::Changed { state }));
+                Ok(Some(value))
+            }
         }
     }
 
